@@ -75,6 +75,25 @@ def r1(cx):
                 for e in fe:
                     if okx & (cb.reachable(e[1]) | {e[1]}):
                         swallowed.append(bi)
+            # what the miss path returns (and what is then cached under the key) is the body of that ONE whole-object GET - not bytes assembled from other requests
+            gets_here = set(M.find_calls(cb, lambda c: c == "object_store::ObjectStore::get"))
+            if gets_here:
+                for (ebi, esi, ecls) in M.exit_defs(cb):
+                    if ecls != "ok" or esi == M.T:
+                        continue
+                    erv = cb.blocks[ebi]["stmts"][esi]["rv"]
+                    if erv["k"] != "agg" or not erv.get("ops"):
+                        continue
+                    eo = M.operand_origins(cb, erv["ops"][0], at=(ebi, esi))
+                    srcs = {x[1][1] for x in eo if x[0] == "call"}
+                    body_calls = {c for c in srcs if re.search(r"GetResult::(bytes|into_stream)$", c)}
+                    foreign = sorted(c for c in srcs - body_calls if not c.startswith(("std::", "core::", "alloc::", "bytes::", "futures::")) or "get_range" in c)
+                    if body_calls and not foreign:
+                        cx.passed(k2, "miss-returns-the-whole-object-get", [cb.sp(ebi, esi)])
+                    else:
+                        cx.violation(k2, "miss-returns-the-whole-object-get", "%s: on a miss the bytes returned (and cached under the key) can come from %s instead of the body of the one whole-object GET: "
+                                     "an object put together from several requests (ranged parts arriving out of order, another version in between) is not the object the store holds" % (
+                                         cb.sp(ebi, esi), foreign or "something other than GetResult::bytes"), [cb.sp(ebi, esi)])
             if swallowed:
                 cx.violation(k2, "miss-path-swallows-store-error", "%s: on the cache-miss path an error of the backing store (e.g. a body stream failing after the first chunk) is dropped and the "
                              "closure still returns Ok: a truncated body is handed to the reader and cached under the object's key" % cb.sp(swallowed[0]), [cb.sp(s) for s in swallowed[:2]])
